@@ -30,7 +30,6 @@ def check(run, tier):
 
 
 def replay(run, rp):
-    if "prog" in rp["item"]:
-        replay_programs(run, rp)
-    else:
-        replay_calls(run, rp)
+    from ._twin import replay_any
+
+    replay_any(run, rp)
